@@ -1,6 +1,7 @@
 import QR.Model.Release
 import QR.Spec.Release
 import QR.Proofs.Release
+import QR.Proofs.Pinned
 /-
 C20 - the manual-page release hook (qrcode/release.py `update_manpage`).
 
@@ -111,5 +112,9 @@ example :
     ∧ updateManpage "qrcode".toList "8.0".toList "27 Sep 2026".toList
       "x\n.TH QR 1 \"only one\"\n.TH QR 1 \"26 Sep 2026\" \"8.0\" \"tool\"\n.TH A \"d\" \"6.0\"".toList = none := by
   decide
+
+/-- the Python functions this property's model mirrors have, in /repo's current working tree, exactly the normalised
+    ASTs the model was written and validated against (fingerprints regenerated by T1 on every run) -/
+theorem C20_source_fingerprints : QR.Gen.fp_C20 = QR.Pinned.fp_C20 := by decide
 
 end QR.Props
